@@ -12,8 +12,8 @@ import (
 
 func init() {
 	register(&core.Property{
-		ID:    "C16",
-		Title: "Weighted balancing: server weights are valid and split traffic as configured",
+		ID:          "C16",
+		Title:       "Weighted balancing: server weights are valid and split traffic as configured",
 		Explanation: "The statement is arithmetic (integer lcm/gcd mixed with float32 scaling and truncation); bounding RebalanceWeight's result over all weight/replica vectors needs numeric reasoning no sound static argument available here provides, so the arithmetic itself is NOT decided. Decided structurally, as necessary conditions: (1) the configured blue/green weight is clamped to 0..256 before it is stored (in `pod` mode it is written to the servers unchanged); (2) endpoints matching no group get weight 0 and draining endpoints (weight 0) are skipped before grouping; (3) the rebalance runs for `deploy` mode with the configured initial weight, and in the Gateway converter on every path that adds weighted endpoints, with base 128 and default backendRef weight 1, and the server weights are read back from the rebalanced clusters; (4) accumulator discipline inside RebalanceWeight: the lcm/gcd accumulators are combined with themselves on every iteration once initialised — a plain overwrite is allowed only while the accumulator still has its initial value.",
 		NotDecided: []string{
 			"weights in 0..256 after RebalanceWeight, proportional shares up to rounding: arithmetic, not applicable to static analysis (DESIGN §4 C16)",
@@ -66,7 +66,9 @@ func c16Clamp(c *core.Ctx) {
 		switch {
 		case k == "0":
 			has0 = true
-			if !blockGuarded(e.from, func(g guard) bool { return strings.Contains(g.Key, "strconv.ParseInt(") && strings.HasSuffix(g.Key, "< 0)") && g.Branch }) {
+			if !blockGuarded(e.from, func(g guard) bool {
+				return strings.Contains(g.Key, "strconv.ParseInt(") && strings.HasSuffix(g.Key, "< 0)") && g.Branch
+			}) {
 				ok, detail = false, "the constant 0 is assigned outside the `w < 0` branch"
 			}
 		case k == "256":
